@@ -230,9 +230,9 @@ Octagonal_Shape<T>::congruences() const {
 template <typename T>
 inline Octagonal_Shape<T>&
 Octagonal_Shape<T>::operator=(const Octagonal_Shape& y) {
-  matrix = y.matrix;
-  space_dim = y.space_dim;
-  status = y.status;
+  // Copy and swap: if the copy throws, `*this' is left untouched.
+  Octagonal_Shape tmp(y);
+  m_swap(tmp);
   return *this;
 }
 
